@@ -497,6 +497,15 @@ _c["lean_modules"].append("Astral.Props.JulianPure")
 _c["theorems"].append("Astral.JulianPure.julian_pure")
 _c.setdefault("trusted_extra", []).append("harness/effects.py (static effect summary, over-approximation)")
 
+for _p, _t in (("C19", "Astral.FrontPure.location_queries_pure"), ("C16", "Astral.FrontPure.coords_pure")):
+    _c = PROPS[_p]
+    _c.setdefault("generators", [])
+    if "effects" not in _c["generators"]:
+        _c["generators"].append("effects")
+    _c["lean_modules"].append("Astral.Props.FrontPure")
+    _c["theorems"].append(_t)
+    _c.setdefault("trusted_extra", []).append("harness/effects.py (static effect summary, over-approximation)")
+
 for _p in ["C17", "C18"]:
     _c = PROPS[_p]
     _c.setdefault("generators", [])
